@@ -81,6 +81,10 @@ def c16_load_oracle(case, trace):
     for t, r in trace:
         if t == "LOADSRC" and r.split()[-1] in ("DIFFERENT", "PANIC"):
             yield "the error of load_test(%s) does not carry the source text of that test: %s" % (r.split()[0], r)
+        if t == "LOADAT" and r.split()[1] != "same":
+            yield "the error of load_test(%s) is not the error (message, locations) of parsing that source and binding it: %s" % (r.split()[0], r[:300])
+        if t == "LOADEDIT" and r.split()[1] != "same":
+            yield "after an edit of the public test_cases[%s].source / signals, load_test is not parse + bind of the edited data: %s" % (r.split()[0], r[:300])
         if t == "ENTRY" and not r.startswith("same"):
             yield "File::parse, the FromStr impl and File::open (on a file with the same text) disagree: %s" % r[:300]
     oob = [r for t, r in trace if t == "LOADOOB"]
